@@ -200,6 +200,11 @@ func (w *Worker) globalAddr(g *ssa.Global) *Value {
 	cell := zero(mustDeref(g.Type()))
 	a := &cell
 	w.globals[g] = a
+	if !w.inSetup && w.frozen != nil {
+		// storage created lazily during a path outlives it: a write to it must
+		// trigger the world rebuild like a write to any other setup state
+		w.frozen[a] = true
+	}
 	return a
 }
 
